@@ -541,7 +541,11 @@ def t_ivl_sem(F, R):
              ("x/2", bop("Div", x, num(2)), lambda a, b: a / 2), ("x/-4", bop("Div", x, num(-4)), lambda a, b: a / -4), ("max(x,y)", mx(x, y), lambda a, b: max(a, b)), ("min(x,y)", mn(x, y), lambda a, b: min(a, b)),
              ("max(x,y,1)", mx(x, y, num(1)), lambda a, b: max(a, b, 1)), ("abs(x-y)", ab(bop("Sub", x, y)), lambda a, b: abs(a - b)), ("max(abs(x),y)", mx(ab(x), y), lambda a, b: max(abs(a), b)),
              ("3-min(x,y)", bop("Sub", num(3), mn(x, y)), lambda a, b: 3 - min(a, b)), ("-2*max(x,y)+y", bop("Add", bop("Mul", num(-2), mx(x, y)), y), lambda a, b: -2 * max(a, b) + b),
-             ("abs(abs(x)-2)", ab(bop("Sub", ab(x), num(2))), lambda a, b: abs(abs(a) - 2)), ("-(x/-4)", neg(bop("Div", x, num(-4))), lambda a, b: a / 4), ("min(x,-y)", mn(x, neg(y)), lambda a, b: min(a, -b))]
+             ("abs(abs(x)-2)", ab(bop("Sub", ab(x), num(2))), lambda a, b: abs(abs(a) - 2)), ("-(x/-4)", neg(bop("Div", x, num(-4))), lambda a, b: a / 4), ("min(x,-y)", mn(x, neg(y)), lambda a, b: min(a, -b)),
+             # three and more operands, the deciding one in the middle
+             ("min(x,y,x+1)", mn(x, y, bop("Add", x, num(1))), lambda a, b: min(a, b, a + 1)), ("min(2,y,x)", mn(num(2), y, x), lambda a, b: min(2, b, a)), ("max(x,y,x-1)", mx(x, y, bop("Sub", x, num(1))), lambda a, b: max(a, b, a - 1)),
+             ("max(-1,y,x)", mx(num(-1), y, x), lambda a, b: max(-1, b, a)), ("min(x,y,-y,x)", mn(x, y, neg(y), x), lambda a, b: min(a, b, -b, a)), ("max(x,-y,y,x)", mx(x, neg(y), y, x), lambda a, b: max(a, -b, b, a)),
+             ("min(x,max(y,x,-3),4)", mn(x, mx(y, x, num(-3)), num(4)), lambda a, b: min(a, max(b, a, -3), 4))]
     classes = [(-3.0, 2.0), (0.0, 5.0), (-5.0, 0.0), (-3.0, -1.0), (2.0, 4.0), (0.0, 0.0), (-INF, 5.0), (-3.0, INF), (-INF, INF), (-0.5, 0.25)]
 
     def grid(lo, hi):
@@ -809,6 +813,51 @@ def bounds_sound(F, R, tier="quick"):
         seen = False
         for pt in it.product(sorted(set(axis)), repeat=nv):
             if not all(relf[rl](sum(Fr(k_) * v_ for k_, v_ in zip(coeffs, pt)), Fr(c)) for _, rl, c, coeffs in cs):
+                continue
+            seen = True
+            for nm, v_ in zip(names, pt):
+                lo, hi = vb.get(nm, (-INF, INF))
+                if (lo != -INF and v_ < Fr(lo) - tol) or (hi != INF and v_ > Fr(hi) + tol):
+                    bad.setdefault(("unsound", g), "%s: the feasible point %s is outside the derived range of %s [%r, %r]" % (label, dict(zip(names, map(str, pt))), nm, lo, hi))
+                wk, wa = written[nm]
+                if wk != "Boolean" and len(wa) == 2 and ((wa[0] != -INF and v_ < Fr(wa[0]) - tol) or (wa[1] != INF and v_ > Fr(wa[1]) + tol)):
+                    bad.setdefault(("domain", g), "%s: the feasible point %s is outside the domain written back for %s: %s(%r, %r)" % (label, dict(zip(names, map(str, pt))), nm, wk, wa[0], wa[1]))
+        if r.fields.get("detected_infeasible") is True and seen:
+            bad.setdefault(("flag", g), "%s: flagged infeasible although a grid point is feasible" % label)
+    # extremes of three operands whose ranges differ (the deciding operand in the middle): forward enclosure, reverse rules
+    # and the published domains, on the corner/middle grid
+    a_, b_, c_ = var("a"), var("b"), var("c")
+    tri = [("min(a,b,c)>=-100", [(mn(a_, b_, c_), "GreaterOrEqual", -100.0)], lambda p: min(p) >= -100), ("min(a,b,c)>=1", [(mn(a_, b_, c_), "GreaterOrEqual", 1.0)], lambda p: min(p) >= 1),
+           ("max(a,b,c)<=100", [(mx(a_, b_, c_), "LessOrEqual", 100.0)], lambda p: max(p) <= 100), ("max(a,b,c)<=3", [(mx(a_, b_, c_), "LessOrEqual", 3.0)], lambda p: max(p) <= 3),
+           ("min(a,b,c)<=-2", [(mn(a_, b_, c_), "LessOrEqual", -2.0)], lambda p: min(p) <= -2), ("max(a,b,c)>=9", [(mx(a_, b_, c_), "GreaterOrEqual", 9.0)], lambda p: max(p) >= 9),
+           ("a+min(a,b,c)>=0", [(bop("Add", a_, mn(a_, b_, c_)), "GreaterOrEqual", 0.0)], lambda p: p[0] + min(p) >= 0), ("max(a,b,c)-c<=2", [(bop("Sub", mx(a_, b_, c_), c_), "LessOrEqual", 2.0)], lambda p: max(p) - p[2] <= 2)]
+    boxes = [("mid-low", (("Real", 0.0, 10.0), ("Real", -5.0, 10.0), ("Real", 0.0, 10.0))), ("mid-high", (("Real", 0.0, 4.0), ("Real", 0.0, 12.0), ("Real", 0.0, 4.0))), ("ints", (("IntegerRange", 0, 6), ("IntegerRange", -4, 9), ("IntegerRange", 1, 6)))]
+    for (tl, tcs, tf), (bl, bx3) in it.product(tri, boxes):
+        names = ["a", "b", "c"]
+        dom = LV([(nm, c12rt.dv(V(VT + "::" + d_[0], list(d_[1:])))) for nm, d_ in zip(names, bx3)])
+        r = I.call_fn(fn, [dom, LV([con(e, rl, c) for e, rl, c in tcs])])
+        n_models += 1
+        g = "extreme3:" + tl
+        label = "%s | %s" % (bl, tl)
+        if is_unknown(r) or not isinstance(r, V) or "variable_bounds" not in r.fields:
+            bad.setdefault(("eval", g), "%s: analysis not evaluable: %r" % (label, r))
+            continue
+        vb = {(k_.text() if isinstance(k_, Rp) else k_): (b2.fields["lower"], b2.fields["upper"]) for k_, b2 in r.fields["variable_bounds"].items}
+        r2 = I.call_fn(ap, [r, dom])
+        if is_unknown(r2):
+            bad.setdefault(("eval", g), "%s: apply_to_domain not evaluable: %r" % (label, r2))
+            continue
+        written = {}
+        for k_, d_ in dom.items:
+            t_ = d_.fields["as_type"]
+            written[k_] = (t_.path.rsplit("::", 1)[-1], t_.args)
+        axes = []
+        for d_ in bx3:
+            lo_, hi_ = Fr(d_[1]), Fr(d_[2])
+            axes.append(sorted({lo_, hi_, Fr(int((lo_ + hi_) / 2)), lo_ + 1, hi_ - 1}))
+        seen = False
+        for pt in it.product(*axes):
+            if not tf(pt):
                 continue
             seen = True
             for nm, v_ in zip(names, pt):
